@@ -13,7 +13,7 @@ pub fn def() -> CheckDef {
     CheckDef {
         id: "C22",
         level: "fault_enumeration",
-        rule: "scenarios = {small extern-token grammar, larger built-in-lexer grammar} x {no prior output, stale prior output (generated from another text), current output + --force} x {with, without --report}; faults: (i) SIGKILL on entry of the N-th system call among {openat, write, close, unlink, unlinkat, rename, renameat, renameat2, mkdir, mkdirat, fsync, ftruncate} for every N until the build completes unharmed (strace fault injection); (ii) RLIMIT_FSIZE = k for every byte offset k of the largest file written, once with SIGXFSZ killing the process and once with SIGXFSZ ignored so that the write fails with EFBIG; after each fault a normal non-forced build runs and the output must equal the reference forced build. distinct_nontrivial = fault runs after which a non-empty output file existed before the rebuild",
+        rule: "scenarios = {small extern-token grammar, larger built-in-lexer grammar} x {no prior output, stale prior output (generated from another text), current output + --force} x {with, without --report}; faults: (i) SIGKILL on entry of the N-th system call among {openat, write, close, unlink, unlinkat, rename, renameat, renameat2, mkdir, mkdirat, fsync, ftruncate} for every N until the build completes unharmed (strace fault injection); (ii) RLIMIT_FSIZE = k for every byte offset k of the largest file written, once with SIGXFSZ killing the process and once with SIGXFSZ ignored so that the write fails with EFBIG; after each fault a normal non-forced build with the same options runs and the generated parser (and, with --report, the report file) must equal the reference forced build. distinct_nontrivial = fault runs after which a non-empty output file existed before the rebuild",
         evaluations: "fault_runs",
         nontrivial: "faults_leaving_partial_output",
         mc: None,
@@ -60,25 +60,51 @@ fn run_cli(dir: &Path, args: &[&str]) -> std::process::ExitStatus {
     Command::new(cli()).current_dir(dir).args(args).stdout(Stdio::null()).stderr(Stdio::null()).status().expect("run lalrpop cli")
 }
 
-fn reference(base: &Path, text: &str) -> Result<Vec<u8>, String> {
+/// reference forced build: (generated parser, report)
+fn reference(base: &Path, text: &str) -> Result<(Vec<u8>, Vec<u8>), String> {
     let d = base.join("ref");
     let _ = std::fs::remove_dir_all(&d);
     std::fs::create_dir_all(&d).unwrap();
     std::fs::write(d.join("g.lalrpop"), text).unwrap();
-    let st = run_cli(&d, &["-f", "g.lalrpop"]);
+    let st = run_cli(&d, &["-f", "--report", "g.lalrpop"]);
     if !st.success() {
         return Err(format!("reference build failed: {:?}", st));
     }
-    std::fs::read(d.join("g.rs")).map_err(|e| e.to_string())
+    let rs = std::fs::read(d.join("g.rs")).map_err(|e| e.to_string())?;
+    let rep = std::fs::read(d.join("g.report")).map_err(|e| format!("g.report: {}", e))?;
+    // the report option must not change the parser
+    let _ = std::fs::remove_file(d.join("g.rs"));
+    let st = run_cli(&d, &["-f", "g.lalrpop"]);
+    if !st.success() || std::fs::read(d.join("g.rs")).ok().as_ref() != Some(&rs) {
+        return Err("reference build with and without --report differ".to_string());
+    }
+    Ok((rs, rep))
 }
 
-fn setup(dir: &Path, sc: &Scenario, refs: &(Vec<u8>, Vec<u8>)) {
+struct Refs {
+    rs: Vec<u8>,
+    report: Vec<u8>,
+    other_rs: Vec<u8>,
+    other_report: Vec<u8>,
+}
+
+fn setup(dir: &Path, sc: &Scenario, refs: &Refs) {
     let _ = std::fs::remove_dir_all(dir);
     std::fs::create_dir_all(dir).unwrap();
     std::fs::write(dir.join("g.lalrpop"), sc.text).unwrap();
     match sc.prior {
-        1 => std::fs::write(dir.join("g.rs"), &refs.1).unwrap(),
-        2 => std::fs::write(dir.join("g.rs"), &refs.0).unwrap(),
+        1 => {
+            std::fs::write(dir.join("g.rs"), &refs.other_rs).unwrap();
+            if sc.report {
+                std::fs::write(dir.join("g.report"), &refs.other_report).unwrap();
+            }
+        }
+        2 => {
+            std::fs::write(dir.join("g.rs"), &refs.rs).unwrap();
+            if sc.report {
+                std::fs::write(dir.join("g.report"), &refs.report).unwrap();
+            }
+        }
         _ => {}
     }
 }
@@ -95,15 +121,33 @@ fn build_args(sc: &Scenario) -> Vec<&'static str> {
     a
 }
 
-/// after the fault: normal non-forced rebuild, then compare
-fn rebuild_and_check(ctx: &mut Ctx, dir: &Path, sc: &Scenario, want: &[u8], fault: &str) {
+/// after the fault: normal non-forced rebuild (same options, no --force), then compare
+fn rebuild_and_check(ctx: &mut Ctx, dir: &Path, sc: &Scenario, refs: &Refs, fault: &str) {
+    let want: &[u8] = &refs.rs;
     let before = std::fs::read(dir.join("g.rs")).ok();
     if before.as_ref().map(|b| !b.is_empty() && b != want).unwrap_or(false) {
         ctx.count("faults_leaving_partial_output");
     }
-    let st = run_cli(dir, &["g.lalrpop"]);
+    let report_before = std::fs::read(dir.join("g.report")).ok();
+    if sc.report && report_before.as_ref().map(|b| b != &refs.report).unwrap_or(false) {
+        ctx.count("faults_leaving_partial_report");
+    }
+    let st = if sc.report { run_cli(dir, &["--report", "g.lalrpop"]) } else { run_cli(dir, &["g.lalrpop"]) };
     let after = std::fs::read(dir.join("g.rs")).ok();
     if st.success() && after.as_deref() == Some(want) {
+        if sc.report {
+            // the report is an output of this build too: it must be the complete one
+            let rep = std::fs::read(dir.join("g.report")).ok();
+            if rep.as_ref() != Some(&refs.report) {
+                let class = match &rep {
+                    None => "no-report-after-rebuild",
+                    Some(r) if r.len() < refs.report.len() && refs.report.starts_with(r) => "truncated-report-kept",
+                    Some(_) => "wrong-report-after-rebuild",
+                };
+                ctx.violation(class, format!("scenario {} fault {}: after a normal rebuild with --report the report has {} bytes (reference {})", sc.name, fault, rep.as_ref().map(|a| a.len() as i64).unwrap_or(-1), refs.report.len()), json!({"scenario": sc.name, "fault": fault, "grammar": sc.text, "report_left_by_fault_len": report_before.map(|b| b.len())}));
+                return;
+            }
+        }
         ctx.count("rebuild_ok");
         return;
     }
@@ -140,21 +184,21 @@ fn run(ctx: &mut Ctx) {
                 continue;
             }
         }
-        let want = match reference(&base, sc.text) {
+        let (want, want_report) = match reference(&base, sc.text) {
             Ok(w) => w,
             Err(e) => {
                 ctx.machinery(e);
                 return;
             }
         };
-        let other = match reference(&base, sc.other) {
+        let (other, other_report) = match reference(&base, sc.other) {
             Ok(w) => w,
             Err(e) => {
                 ctx.machinery(e);
                 return;
             }
         };
-        let refs = (want.clone(), other);
+        let refs = Refs { rs: want.clone(), report: want_report.clone(), other_rs: other, other_report };
         let dir = base.join("w");
         let args = build_args(sc);
         // (i) kill at the N-th system call
@@ -186,7 +230,7 @@ fn run(ctx: &mut Ctx) {
             ctx.count("fault_runs");
             ctx.count("syscall_kills");
             ctx.max("max_syscall_index", n);
-            rebuild_and_check(ctx, &dir, sc, &want, &format!("SIGKILL at syscall #{}", n));
+            rebuild_and_check(ctx, &dir, sc, &refs, &format!("SIGKILL at syscall #{}", n));
             n += ctx.nshards as u64;
             if n > 5000 {
                 ctx.machinery("more than 5000 system calls?".to_string());
@@ -194,16 +238,17 @@ fn run(ctx: &mut Ctx) {
             }
         }
         // (ii) RLIMIT_FSIZE at every byte
-        let limit = want.len() as u64 + 64;
+        let largest = if sc.report { want.len().max(want_report.len()) } else { want.len() };
+        let limit = largest as u64 + 64;
         // byte offsets: thorough = every byte for the small grammar, every 7th for the larger
         // one; quick = every byte of the first 256 (the header lines), every 251st after that,
         // and the last bytes
         let offsets: Vec<u64> = (0..=limit)
             .filter(|k| {
                 if thorough {
-                    sc.name.starts_with("small") || k % 7 == 0 || *k < 256 || *k + 8 > want.len() as u64
+                    sc.name.starts_with("small") || k % 7 == 0 || *k < 256 || (*k + 8 > want.len() as u64 && *k < want.len() as u64 + 8) || *k + 8 > largest as u64
                 } else {
-                    *k < 256 || k % 251 == 0 || (*k + 4 > want.len() as u64 && *k < want.len() as u64 + 3)
+                    *k < 256 || k % 251 == 0 || (*k + 4 > want.len() as u64 && *k < want.len() as u64 + 3) || (sc.report && *k + 4 > want_report.len() as u64 && *k < want_report.len() as u64 + 3)
                 }
             })
             .collect();
@@ -238,7 +283,7 @@ fn run(ctx: &mut Ctx) {
                 if st.code() == Some(101) {
                     ctx.count("cli_panics_on_write_error");
                 }
-                rebuild_and_check(ctx, &dir, sc, &want, &format!("RLIMIT_FSIZE={} sigxfsz_ignored={}", k, ignore));
+                rebuild_and_check(ctx, &dir, sc, &refs, &format!("RLIMIT_FSIZE={} sigxfsz_ignored={}", k, ignore));
             }
         }
         if ctx.p.samples.len() < 2 {
